@@ -12,3 +12,4 @@ def check(A):
     R.codec_registry_rules(A, 'C19')
     R.jsonp_rule(A, 'C19')
     R.constructor_rules(A, 'C19', fresh_rule='C19')
+    R.driver_response_rules(A, 'C19')
